@@ -13,6 +13,7 @@
 -/
 import YashModel.Fork.RedirLemmas
 import YashModel.Fork.SigLemmas
+import YashModel.Fork.PlumbLemmas
 import YashModel.Fork.Fields
 import YashModel.Fork.Lemmas
 import YashModel.Fork.SharedLemmas
@@ -121,7 +122,7 @@ theorem child_process_fresh :
     closes a descriptor, and the child inherits the lowered limit too): the code does not hand the descriptors
     over through the limit-checking accessor after the limits were copied (generated `forkFdsLimitChecked`), and
     in the model the child's table is the parent's for every value of the limit. -/
-theorem child_fds_for_every_limit (ppid : Nat) (p : Proc) (limit : String) :
+theorem child_fds_for_every_limit (ppid : Nat) (p : Proc) (limit : Option Nat) :
     forkFdsLimitChecked = false
     ∧ (Proc.forkFrom implCopied ppid { p with nofile := limit }).fds = p.fds
     ∧ (Proc.forkFrom implCopied ppid { p with nofile := limit }).nofile = limit := by
@@ -131,7 +132,7 @@ theorem child_fds_for_every_limit (ppid : Nat) (p : Proc) (limit : String) :
 
 /-- a descriptor above a lowered limit: still there in the child -/
 example : fdGet (Proc.forkFrom implCopied 2
-    { initialEnv.system with fds := fdPut initialEnv.system.fds 20 { label := "f1" }, nofile := "16" }).fds 20
+    { initialEnv.system with fds := fdPut initialEnv.system.fds 20 { label := "f1" }, nofile := some 16 }).fds 20
     = some { label := "f1" } := by decide
 
 /-- With everything POSIX names copied (`specCopied`, the Spec's fork) the child process is the parent's. -/
@@ -608,15 +609,15 @@ theorem interleaving_isolated (copied : List (String × String)) (s : SysState) 
 def exampleInterleaving : ProcTable :=
   ((initialSys.fork implCopied 2).2.run implCopied (schedOf 2 initialSys.nextPid
     [(true, .umask "077"), (false, .open "f1"), (true, .close 1), (true, .sigaction Trap.SIGINT .ignore),
-     (false, .setrlimit "16")])).processes
+     (false, .setrlimit (some 16))])).processes
 
 /-- … each entry shows only its owner's calls -/
 example :
-    (exampleInterleaving.get 2).map (fun p => [p.umask, p.nofile]) = some ["644", "16"]
+    (exampleInterleaving.get 2).map (fun p => (p.umask, p.nofile)) = some ("644", some 16)
     ∧ (exampleInterleaving.get 2).map (fun p => (fdGet p.fds 3, fdGet p.fds 1))
         = some (some { label := "f1" }, some { label := "out" })
     ∧ (exampleInterleaving.get 2).map (fun p => (p.sys.disp Trap.SIGINT, p.ppid)) = some (.default, 1)
-    ∧ (exampleInterleaving.get 3).map (fun p => [p.umask, p.nofile]) = some ["077", "unlimited"]
+    ∧ (exampleInterleaving.get 3).map (fun p => (p.umask, p.nofile)) = some ("077", none)
     ∧ (exampleInterleaving.get 3).map (fun p => (fdGet p.fds 3, fdGet p.fds 1)) = some (none, none)
     ∧ (exampleInterleaving.get 3).map (fun p => (p.sys.disp Trap.SIGINT, p.ppid)) = some (.ignore, 2) := by
   decide
@@ -986,14 +987,15 @@ theorem redirection_respects_limit (p : Proc) (n : Nat) (b : RedirBody) (hb : b 
   · exact hl
   · rw [execRedir_limit p n b hb hself hl] at h; cases h
 
-/-- non-vacuity: a process whose soft limit is 16 (`String.toNat?` of the limit's text does not reduce in the kernel,
-    hence the hypothesis; the driver evaluates it for the `nofile 16` cases of the sweep): `exec 20>|f1` and
-    `exec 20>&1` fail, and descriptor 5 is allowed -/
-example (p : Proc) (h : nofileLimit p = some 16) :
-    (execRedir p 20 (.file "f1")).1 = false ∧ (execRedir p 20 (.copy 1)).1 = false ∧ fdAllowed p 5 = true := by
-  have hl : ¬ fdAllowed p 20 = true := by simp [fdAllowed, h]
-  exact ⟨execRedir_limit p 20 _ (by simp) (by simp) hl, execRedir_limit p 20 _ (by simp) (by simp) hl,
-    by simp [fdAllowed, h]⟩
+/-- non-vacuity (closed since the limit is a numeral, `Proc.nofile : Option Nat`): under `ulimit -S -n 16`, with
+    descriptor 20 open from before, `exec 20>|f1` and `exec 20>&1` fail, `exec 5>|f1` succeeds, and fd 20 is still
+    what it was -/
+example :
+    let p : Proc := { baseEnv.system with nofile := some 16, fds := fdPut baseEnv.system.fds 20 { label := "f2" } }
+    (execRedir p 20 (.file "f1")).1 = false ∧ (execRedir p 20 (.copy 1)).1 = false
+    ∧ (execRedir p 5 (.file "f1")).1 = true
+    ∧ fdGet (execRedir p 20 (.file "f1")).2.fds 20 = some { label := "f2" } := by
+  decide
 
 /-- ★ The by-value `Env.system` and the shared table agree on the mutators: for `umask`, `cd`, `ulimit -n` and the
     `exec` redirections the process state after the mutator is the state before with a list of the process's OWN
@@ -1204,5 +1206,157 @@ example :
         = (subshellEntry false true env).system.sys.disp Trap.SIGINT := by
   decide
 
+
+/-! ## Part 8 — EVERY write of the entry sequence of every kind is an own call of the child; `set -m` -/
+
+/-- ★★ ONE statement for every kind of subshell, on the shared table.  The child's `Env` right after the fork is
+    `env` (its `Env.system` is the entry of `child`, a copy of the starter's — `fork_frame` — that holds the pipe ends
+    the starter opened for it).  Everything the entry sequence then does to the process — the trap reset of
+    `Config::start`'s prologue and the kind's plumbing of fd 0 / fd 1 (`move_to_stdin_stdout`, `subshell_body`,
+    `nullify_stdin`) — is a list of the CHILD's own system calls: run through the child's handle they leave every
+    other entry of the table untouched (the starter's included), and the child's entry is the one the shell-level
+    model starts the body from (`plumb k jc (subshellEntry …)`): its descriptor table except that the starter's pipe
+    ends are closed, its dispositions and mask, and the starter's cwd / umask / limit. -/
+theorem kind_entry_on_shared_table (copied : List (String × String)) (s : SysState) (child : Nat) (env : Env)
+    (hs : s.processes.get child = some env.system) (k : Kind) (jc ii ks : Bool) (rp r w : Nat)
+    (he : PipeEnds env.system rp r w) :
+    ∃ cs : List Call,
+      (∀ q, q ≠ child → (s.run copied (cs.map fun c => (child, .call c))).processes.get q = s.processes.get q)
+      ∧ ∃ q', (s.run copied (cs.map fun c => (child, .call c))).processes.get child = some q'
+        ∧ (∀ m, fdGet q'.fds m = if m ∈ kindEnds k rp r w then none
+            else fdGet (plumb k jc (subshellEntry ii ks env)).system.fds m)
+        ∧ SysEq q'.sys (plumb k jc (subshellEntry ii ks env)).system.sys
+        ∧ q'.cwd = env.system.cwd ∧ q'.umask = env.system.umask ∧ q'.nofile = env.system.nofile := by
+  obtain ⟨cs1, _, r1⟩ := (subshell_entry_is_own_calls ii ks env).1
+  obtain ⟨e1, f1⟩ := r1 env.system ⟨rfl, rfl⟩
+  obtain ⟨g1, g2, g3, g4, g5, g6⟩ := f1
+  -- the process after the reset still holds the ends
+  let env1 : Env := { subshellEntry ii ks env with system := runCalls env.system cs1 }
+  have he1 : PipeEnds env1.system rp r w := by
+    obtain ⟨hr, hw, hp, a, b, c, d, e, f, a0, a1⟩ := he
+    have hfa : ∀ n, fdAllowed (runCalls env.system cs1) n = fdAllowed env.system n := by
+      intro n; unfold fdAllowed nofileLimit; rw [g6]
+    exact ⟨by show (fdGet (runCalls env.system cs1).fds r).isSome = true; rw [g1]; exact hr,
+      by show fdGet (runCalls env.system cs1).fds w = _; rw [g1]; exact hw,
+      by show fdGet (runCalls env.system cs1).fds rp = _; rw [g1]; exact hp,
+      a, b, c, d, e, f, by show fdAllowed (runCalls env.system cs1) 0 = true; rw [hfa]; exact a0,
+      by show fdAllowed (runCalls env.system cs1) 1 = true; rw [hfa]; exact a1⟩
+  obtain ⟨p1, p2⟩ := plumb_is_own_calls' k jc env1 rp r w he1
+  obtain ⟨t1, t2⟩ := own_calls_on_table copied child (cs1 ++ plumbCalls k jc rp r w) s env.system hs
+  refine ⟨cs1 ++ plumbCalls k jc rp r w, t2, _, t1, ?_, ?_, ?_, ?_, ?_⟩
+  · intro m
+    rw [runCalls_app]
+    have := p1 m
+    rw [plumb_fds_congr k jc env1 (subshellEntry ii ks env) g1] at this
+    exact this
+  · rw [runCalls_app, plumb_sys]
+    exact ⟨by rw [← e1.1]; exact congrArg _ p2.2.2.1, by rw [← e1.2]; exact congrArg _ p2.2.2.1⟩
+  · rw [runCalls_app]; exact p2.1.trans g2
+  · rw [runCalls_app]; exact p2.2.1.trans g3
+  · rw [runCalls_app]; exact p2.2.2.2.2.2.trans g6
+
+
+/-- non-vacuity of `PipeEnds`: a forked child holding the read end of the previous pipe at 3 and a new pipe at 4/5
+    (the middle member of a pipeline); after its own calls fd 0 and fd 1 are the pipes and 3, 4, 5 are closed -/
+example :
+    let pe : FdEntry := { label := "pipe" }
+    let q : Proc := { baseEnv.system with fds := fdPut (fdPut (fdPut baseEnv.system.fds 3 pe) 4 pe) 5 pe }
+    (fdGet q.fds 4).isSome = true ∧ fdGet q.fds 5 = some { label := "pipe" } ∧ fdGet q.fds 3 = some { label := "pipe" }
+    ∧ fdAllowed q 0 = true ∧ fdAllowed q 1 = true
+    ∧ (runCalls q (plumbCalls .pipeM false 3 4 5)).fds
+        = [(0, { label := "pipe" }), (1, { label := "pipe" }), (2, { label := "err" })] := by
+  decide
+
+theorem set_monitor_aux (env : Env) (st : Trap.State) (hst : SysReach env.system.sys st.sys) (b : Bool) :
+    SysReach env.system.sys
+        (if b then getTty { env with traps := st.traps, system := { env.system with sys := st.sys } }
+          else { env with traps := st.traps, system := { env.system with sys := st.sys } }).system.sys
+    ∧ ∃ cs, (if b then getTty { env with traps := st.traps, system := { env.system with sys := st.sys } }
+          else { env with traps := st.traps, system := { env.system with sys := st.sys } }).system
+        = runCalls { env.system with sys :=
+            (if b then getTty { env with traps := st.traps, system := { env.system with sys := st.sys } }
+              else { env with traps := st.traps, system := { env.system with sys := st.sys } }).system.sys } cs := by
+  cases b with
+  | false => exact ⟨hst, [], rfl⟩
+  | true =>
+    obtain ⟨⟨cs, hcs⟩, hsame⟩ :=
+      getTty_is_own_calls' { env with traps := st.traps, system := { env.system with sys := st.sys } }
+    simp only [if_true]
+    refine ⟨?_, cs, ?_⟩
+    · rw [hsame.2.2.1]; exact hst
+    · rw [hsame.2.2.1]; exact hcs
+
+/-- ★ `set -m` / `set +m` outside a subshell (`monitorChanged`: the internal dispositions for the stop signals, then
+    `Env::get_tty` when `monitor` is now on): the signal state changes by `sigaction` / `sigmask` calls of the shell's
+    own process, and the rest of the process by `open` / `dup` / `close` calls of it (`/dev/tty` at ≥ 10, CLOEXEC) —
+    no other write.  With `trap_builtin_is_own_calls`, `process_mutators_are_own_calls` and `kind_entry_on_shared_table`
+    every write to `Env.system` the shell-level model performs is now an own-entry call. -/
+theorem set_monitor_is_own_calls (o : String) (env : Env) :
+    SysReach env.system.sys (monitorChanged o env).system.sys
+    ∧ ∃ cs, (monitorChanged o env).system
+        = runCalls { env.system with sys := (monitorChanged o env).system.sys } cs := by
+  unfold monitorChanged
+  split
+  · exact ⟨.refl _, [], rfl⟩
+  · have hst : SysReach env.system.sys
+        (if env.options.contains "interactive" && env.options.contains "monitor"
+          then Trap.enableStoppers { sys := env.system.sys, traps := env.traps }
+          else Trap.disableStoppers { sys := env.system.sys, traps := env.traps }).sys := by
+      split
+      · exact (stoppers_reach { sys := env.system.sys, traps := env.traps }).1
+      · exact (stoppers_reach { sys := env.system.sys, traps := env.traps }).2
+    exact set_monitor_aux env _ hst (env.options.contains "monitor")
+
+/-! ## Part 9 — the static audit as a checked statement -/
+
+/-- ★ Aliasing inside the cloned fields of `Env` (was: a printed audit, "not a theorem").  Over the table of EVERY
+    `Rc` / `RefCell` / `Cell` / `Weak` / `OnceCell` / trait-object cell reachable from a non-`system` field of `Env`
+    (re-extracted from yash-env and yash-syntax on every run, over-approximating by bare type name):
+    every cell is classified (`cellClass`); the ONLY shared cell that can be written after the fork is
+    `Code.value: RefCell<String>`, and the only code that takes a mutable borrow of it is the lexer's `push_str` of the
+    line it has just read (append-only source text for error messages, not state the property names); the one opaque
+    container (`DataSet`) is cloned entry by entry.  A new field holding an `Rc<RefCell<…>>`, a `Cell`, a new trait
+    object, or a second writer of `Code.value` breaks this proof. -/
+theorem env_cells_classified :
+    (∀ e ∈ Generated.ForkMaps.interiorCells, cellClass e ≠ "UNCLASSIFIED")
+    ∧ Generated.ForkMaps.interiorCells.filter (fun e => cellClass e = "sharedMutable")
+        = [("RefCell", "Code.value", "RefCell<String>")]
+    ∧ Generated.ForkMaps.codeValueWriters = [("yash-syntax/src/parser/lex/core.rs", "push_str")]
+    ∧ (Generated.ForkMaps.interiorCells.filter (fun e => cellClass e = "clonedOnFork")).length = 1 := by
+  decide
+
+/-! ## Part 10 — schedules of whole shells -/
+
+/-- A scheduling point of the starter between `&` and `wait` (`W:yield`: the starter blocks in `( : )`, the executor
+    runs the asynchronous child — or the part of it up to its next wait — there) leaves no trace in the starter.
+    Hence the model's and the Spec's answer for a program is the same under every placement of the yields:
+    `applyOps` over a list with yields is `applyOps` over the list without them.  The differential run then shows that
+    the real shell's snapshots agree with that ONE answer under each of the schedules driven (sweep 1h: 5 per program). -/
+theorem yield_is_invisible (sh : Shell) (ops : List Op) :
+    applyOp sh .yield = sh ∧ applyOps sh ops = applyOps sh (ops.filter (· ≠ .yield)) := by
+  have h1 : ∀ s : Shell, applyOp s .yield = s := by
+    intro s
+    unfold applyOp
+    by_cases h : s.halted.isSome = true
+    · simp [h]
+    · have hn : s.halted = none := by cases hh : s.halted <;> simp_all
+      simp [opStatus, applyOpCore, hn]
+  refine ⟨h1 sh, ?_⟩
+  induction ops generalizing sh with
+  | nil => rfl
+  | cons op rest ih =>
+    by_cases ho : op = .yield
+    · subst ho
+      simp only [applyOps, List.foldl_cons, h1] at ih ⊢
+      simpa [List.filter] using ih sh
+    · simp only [applyOps, List.foldl_cons] at ih ⊢
+      simp only [List.filter, ho, ne_eq, not_false_eq_true, decide_true, List.foldl_cons]
+      exact ih _
+
+/-- the starter's side of `&` … `wait` under two schedules: same shell -/
+example :
+    (parentSide .async initialEnv [.yield, .umask "027", .yield]).env.system.umask
+      = (parentSide .async initialEnv [.umask "027"]).env.system.umask
+    ∧ (parentSide .async initialEnv [.yield, .umask "027", .yield]).events = [] := by decide
 
 end YashModel.Fork
